@@ -345,7 +345,7 @@ func (in *Interp) convert(from, to types.Type, x value) value {
 						continue
 					}
 					if in.branch(ts.Not(ts.Cmp(OpUlt, t, ts.BV(t.w, 0x800)))) {
-						panic(unsupported("string([]rune) with symbolic runes >= 0x800"))
+						panic(unsupported("string([]rune) with symbolic runes >= 0x800 at " + in.where()))
 					}
 					// two-byte UTF-8: 110xxxxx 10xxxxxx
 					b = append(b, ts.Concat(ts.BV(3, 6), ts.Extract(t, 10, 6)), ts.Concat(ts.BV(2, 2), ts.Extract(t, 5, 0)))
